@@ -194,13 +194,13 @@ impl<'data> ProguardCache<'data> {
         let mut records = mapping.iter().filter_map(Result::ok).peekable();
         while let Some(record) = records.next() {
             match record {
-                ProguardRecord::Header {
-                    key,
-                    value: Some(file_name),
-                } => {
+                ProguardRecord::Header { key, value } => {
                     if key == "sourceFile" {
-                        current_class.class.file_name_offset =
-                            string_table.insert(file_name) as u32;
+                        // Without a value the file name is cleared, as in `ProguardMapper`.
+                        current_class.class.file_name_offset = match value {
+                            Some(file_name) => string_table.insert(file_name) as u32,
+                            None => u32::MAX,
+                        };
                     }
                 }
                 ProguardRecord::Class {
